@@ -186,9 +186,10 @@ CHECKS = {
              "content, marker), handler invoked exactly once per dispatched request with the message sent (inbound Tread count clamp applied), duplicate-tag request gets the "
              "duplicate-tag error and no invocation, nothing extra at quiescence. One script in 12 runs on top of 100..300 requests sent back to back and left outstanding "
              "(pipelining depth 127/128/129/255/256/257 and random); one script in 25 contains a pause of 320..420 ms on a connection whose read deadlines run 100 times faster, "
-             "i.e. longer than the server's 30 s idle read timeout, with or without handlers still running, after which the connection must still serve. "
+             "i.e. longer than the server's 30 s idle read timeout, with or without handlers still running, after which the connection must still serve; one script in 10 makes the server's Read fail once with a temporary (non-timeout) net.Error, after which "
+             "a round trip must still work. "
              "Non-trivial = handlers completed out of arrival order, or a duplicate-tag step.",
-        require_classes=dict(quick=["duptag", "duptag_tflush", "err_canceled", "err_deadline", "err_wrap9p", "out_of_order_completion", "pipelined", "rendezvous", "buffered", "burst_over_128", "idle_past_read_timeout", "message_together_with_error"], thorough=[]),
+        require_classes=dict(quick=["duptag", "duptag_tflush", "err_canceled", "err_deadline", "err_wrap9p", "out_of_order_completion", "pipelined", "rendezvous", "buffered", "burst_over_128", "idle_past_read_timeout", "message_together_with_error", "temporary_read_error"], thorough=[]),
         assumptions=["handler results fit in msize (the property's proviso)",
                      "a tag is reused only when its state is certain (handler parked, or reply already read), which keeps the oracle exact",
                      "'no reply within 10 s although the handler returned' counts as a missing reply (normal latency is microseconds)"],
